@@ -20,7 +20,7 @@ From Coq Require Import List ZArith Reals.
 From OW Require Import Base.Arith Base.RInst Base.FInst Base.Mealy.
 From OW Require Import KernelProofs.HotStart KernelProofs.HotStartStateless KernelProofs.HotStartConstituent
   KernelProofs.HotStartRR KernelProofs.HotStartRouting KernelProofs.HotStartStorage KernelProofs.HotStartReal
-  KernelProofs.HotStartWitness KernelProofs.HotStartSRTol.
+  KernelProofs.HotStartWitness KernelProofs.HotStartSRTol KernelProofs.HotStartIndex.
 From OW Require Import Kernels.Muskingum Kernels.Lag Kernels.StorageRouting Kernels.LumpedConstituent Kernels.Decay
   Kernels.InstreamFineSediment Kernels.InstreamCoarseSediment Kernels.InstreamParticulateNutrient
   Kernels.SedimentTrapping Kernels.TrapAll Kernels.DissolvedDecay Kernels.InstreamDissolvedNutrient Kernels.Storage
@@ -224,6 +224,11 @@ Theorem C06_instream_dissolved_nutrient_decay_split_refuted :
 Proof. exact instream_dissolved_nutrient_decay_kernel_split_refuted. Qed.
 Print Assumptions C06_instream_dissolved_nutrient_decay_split_refuted.
 
+(** the same refutation in exact real arithmetic (doDecay = 1, a 1000 km reach, volumes 1e6 then 4e6 m3) *)
+Theorem C06_instream_dissolved_nutrient_decay_split_refuted_R :
+  exists p s0 ins n, ~ split_at (instream_dissolved_nutrient_decay_kernel (A := RArith) p) s0 ins n.
+Proof. exact instream_dissolved_nutrient_decay_kernel_split_refuted_R. Qed.
+
 (* ------------------------------------------------------------------ Sacramento *)
 (** the unit-hydrograph buffer qq is a local, not a state (known finding D7) *)
 Theorem C06_sacramento_split_refuted :
@@ -357,7 +362,8 @@ Proof. exact date_generator_kernel_split_refuted. Qed.
 (* ------------------------------------------------------------------ the real-number statements: assumptions *)
 Definition C06_real_number_statements :=
   (C06_gr4j_kernel_R, C06_instream_fine_sediment_R, C06_storage_trap_all_R, C06_sacramento_split_partial,
-   C06_date_generator_split_refuted, C06_storage_routing_split_within_tol, C06_storage_routing_cut_step_within_tol).
+   C06_date_generator_split_refuted, C06_storage_routing_split_within_tol, C06_storage_routing_cut_step_within_tol,
+   C06_instream_dissolved_nutrient_decay_split_refuted_R).
 Print Assumptions C06_real_number_statements.
 Definition C06_stateless_statements := (@C06_apply_scaling_factor_kernel, @C06_delivery_ratio_kernel, @C06_depth_to_rate_kernel, @C06_fixed_partition_kernel, @C06_variable_partition_kernel, @C06_rating_curve_partition_kernel, @C06_baseflow_filter_kernel, @C06_compute_proportion_kernel, @C06_gate_kernel, @C06_partition_demand_kernel, @C06_sum_kernel, @C06_emc_dwc_kernel, @C06_fixed_concentration_kernel, @C06_pass_load_if_flow_kernel, @C06_dissolved_nutrients_kernel, @C06_particulate_nutrients_kernel, @C06_bank_erosion_kernel, @C06_usle_fine_kernel, @C06_dynamic_sednet_gully_kernel, @C06_dynamic_sednet_gully_alt_kernel, @C06_climate_variables_kernel, @C06_runoff_coefficient_kernel).
 Print Assumptions C06_stateless_statements.
